@@ -402,6 +402,9 @@ def run_rust_case(item):
                 checks.append(("internal and external memory never alias", z3.And(z3.Or(z3.And(k1 == 1, k2 != 1), z3.And(k1 != 1, k2 == 1)), after != before)))
                 checks.append(("read-only cells never change", z3.And(z3.Not(w2), after != before)))
                 checks.append(("24-bit aliases read the same", z3.And((A & 0xFFFFFF) == (A2 & 0xFFFFFF), w1, after != z3.ZeroExt(24, z3.Extract(7, 0, V)))))
+            else:
+                # multi-byte stores as well: whatever else a store that runs into a read-only window does, that window does not change
+                checks.append(("read-only cells never change", z3.And(z3.Not(w2), after != before)))
             checks.append(("store is accepted", T(out[1], 32) != 1))
         else:
             comp = z3.Concat(*reversed([z3.Extract(7, 0, T(out[40 + i], 32)) for i in range(width)]))
@@ -419,7 +422,8 @@ def run_rust_case(item):
         hi = z3.Or(z3.UGE(A & 0xFFFFFF, bv(0x100100, 32)) if mode == 0 else z3.BoolVal(False), z3.UGE(A2 & 0xFFFFFF, bv(0x100100, 32)))
         classes = [("uniform,lo", z3.And(z3.Not(strad), z3.Not(hi))), ("uniform,hi-alias", z3.And(z3.Not(strad), hi))]
         if width > 1:
-            classes.append(("straddle", strad))
+            classes.append(("straddle,lo", z3.And(strad, z3.Not(hi))))
+            classes.append(("straddle,hi-alias", z3.And(strad, hi)))
         for name, neg0 in checks:
           for cname, cpred in classes:
             neg = z3.And(neg0, cpred)
